@@ -53,6 +53,7 @@ class Runner:
         self.spin = None
         self.grew = None
         self.lost = None          # (thread, window, op): asleep in out_buffer_cv.wait, not notified, window open
+        self.proto = None         # addressing / non-blocking problem seen by the rig
         self.iterated = {}
 
     def step(self, op):
@@ -62,6 +63,8 @@ class Runner:
         self.rig.do(op)
         self.reqs.append(op)
         self.impl.append(self.rig.view())
+        if self.proto is None:
+            self.proto = self.rig.protocol_problem()
         lw = self.rig.lost_wakeup()
         if lw is not None and self.lost is None:
             self.lost = (lw, self.rig.chan.out_window_size, op)
@@ -109,6 +112,8 @@ class Runner:
 
 
 def judge(ctx, rig, run, case, total, tag):
+    if run.proto:
+        ctx.fail(run.proto[0] + ":" + tag, case, run.proto[1])
     lt = rig.threads[0]
     sent = rig._bytes_by(0)
     if run.grew:
@@ -136,7 +141,7 @@ def judge(ctx, rig, run, case, total, tag):
 def grid(ctx, rng, batches):
     sizes = [1, 100, 5000, 9000]
     for pre, pre_ops in PRE.items():
-        for mode in ("b", "n", "t5"):
+        for mode in ("b", "bb", "n", "n0", "nb", "t5", "t1000"):
             for win_kind in ("plenty", "zero", "partial"):
                 for ext in (0, 1):
                     for ev, ev_ops in EVENTS.items():
@@ -286,6 +291,8 @@ def random_part(ctx, rng, n, batches):
                 ctx.fail("sendall-no-progress:remainder-not-shortened:random", case,
                          "thread %d: an iteration left the remainder at %d (was %d)"
                          % (run.grew[0], run.grew[2], run.grew[1]))
+            if run.proto:
+                ctx.fail(run.proto[0] + ":random", case, run.proto[1])
             if run.lost:
                 ctx.fail("sendall-blocked-with-window-open:lost-wakeup:random", case,
                          "thread %d sleeps un-notified with out_window_size=%d after %r" % run.lost)
@@ -324,7 +331,7 @@ def run(ctx):
     import paramiko.channel as chmod
     from pv import lib_chanlock
     sites, notifies = lib_chanlock.channel_tables(chmod.Channel)
-    ctx.write_generated("ChanLock", lib_chanlock.lean_tables(sites, notifies, lib_chanlock.window_accesses(chmod.Channel)))
+    ctx.write_generated("ChanLock", lib_chanlock.lean_tables_for(chmod.Channel))
     ctx.build(extra_modules=["PV.Model.ChanDriver"])
     batches = []
     grid(ctx, ctx.rng, batches)
